@@ -161,6 +161,7 @@ def _run(case, cfg, w):
                     {'transport close', 'transport error'})
         elif a == 'close':
             peer.send_eio('1')
+            peer.close()
             transport_ended = True
             for ns in nss:
                 ended.setdefault(ns, set()).update(
